@@ -1,0 +1,150 @@
+// +build verif
+
+// Package verifhook provides durable-write failpoints for verification builds.
+//
+// With the "verif" build tag, Write(site) is called immediately before every
+// durable write of the lowest write layer (LevelDB put/delete/batch, auto-file
+// write, the three file operations of WriteFileAtomic).  Behaviour:
+//
+//   - an in-process callback (SetWriteCallback / SetFailCallback) sees every
+//     call; it may runtime.Goexit() the calling goroutine to simulate the death
+//     of one simulated node, or return an error from Fail;
+//   - environment variables, read once at start-up, drive whole-process runs:
+//     VERIF_CRASH_AT=k   exit(86) immediately before the k-th armed write,
+//     VERIF_FAIL_AT=k    the k-th armed Fail call returns an error,
+//     VERIF_WRITELOG=p   append "<n> <site>" lines for armed writes to file p,
+//     VERIF_ARMED=0      start disarmed; Arm() starts counting.
+package verifhook
+
+import (
+	"errors"
+	"fmt"
+	"os"
+	"strconv"
+	"sync"
+)
+
+// ErrInjected is returned by Fail when a failure is injected.
+var ErrInjected = errors.New("verifhook: injected write failure")
+
+// CrashExitCode is the exit status used for an injected process death.
+const CrashExitCode = 86
+
+var (
+	mtx      sync.Mutex
+	armed    = true
+	writes   int
+	fails    int
+	crashAt  int
+	failAt   int
+	logFile  *os.File
+	writeCb  func(site string)
+	failCb   func(site string) error
+	initOnce sync.Once
+)
+
+func initEnv() {
+	if v := os.Getenv("VERIF_CRASH_AT"); v != "" {
+		crashAt, _ = strconv.Atoi(v)
+	}
+	if v := os.Getenv("VERIF_FAIL_AT"); v != "" {
+		failAt, _ = strconv.Atoi(v)
+	}
+	if v := os.Getenv("VERIF_ARMED"); v == "0" {
+		armed = false
+	}
+	if p := os.Getenv("VERIF_WRITELOG"); p != "" {
+		f, err := os.OpenFile(p, os.O_WRONLY|os.O_CREATE|os.O_APPEND, 0600)
+		if err == nil {
+			logFile = f
+		}
+	}
+}
+
+// Arm starts (or restarts) counting writes for the environment-driven modes.
+func Arm() {
+	initOnce.Do(initEnv)
+	mtx.Lock()
+	armed = true
+	writes, fails = 0, 0
+	if logFile != nil {
+		fmt.Fprintf(logFile, "ARM\n")
+	}
+	mtx.Unlock()
+}
+
+// Disarm stops counting.
+func Disarm() {
+	initOnce.Do(initEnv)
+	mtx.Lock()
+	armed = false
+	mtx.Unlock()
+}
+
+// Count returns the number of armed writes seen so far.
+func Count() int {
+	mtx.Lock()
+	defer mtx.Unlock()
+	return writes
+}
+
+// SetWriteCallback installs an in-process callback invoked on every Write.
+func SetWriteCallback(cb func(site string)) {
+	mtx.Lock()
+	writeCb = cb
+	mtx.Unlock()
+}
+
+// SetFailCallback installs an in-process callback consulted on every Fail.
+func SetFailCallback(cb func(site string) error) {
+	mtx.Lock()
+	failCb = cb
+	mtx.Unlock()
+}
+
+// Write marks a durable write about to be issued at the named site.
+func Write(site string) {
+	initOnce.Do(initEnv)
+	mtx.Lock()
+	cb := writeCb
+	if armed {
+		writes++
+		n := writes
+		if logFile != nil {
+			fmt.Fprintf(logFile, "%d %s\n", n, site)
+		}
+		if crashAt > 0 && n == crashAt {
+			if logFile != nil {
+				fmt.Fprintf(logFile, "CRASH before %d\n", n)
+				logFile.Sync()
+			}
+			os.Exit(CrashExitCode)
+		}
+	}
+	mtx.Unlock()
+	if cb != nil {
+		cb(site)
+	}
+}
+
+// Fail lets a verification build inject an error for the operation at site.
+func Fail(site string) error {
+	initOnce.Do(initEnv)
+	mtx.Lock()
+	cb := failCb
+	inject := false
+	if armed {
+		fails++
+		if failAt > 0 && fails == failAt {
+			inject = true
+		}
+	}
+	mtx.Unlock()
+	if inject {
+		return ErrInjected
+	}
+	if cb != nil {
+		return cb(site)
+	}
+	return nil
+}
